@@ -726,6 +726,7 @@ def execSnap (handle : Tok) (content : String) : M Unit := do
     if !h.isObj a then fail s!"snapshot {handle}: model cell is not an object"
     let kvs := sortToksByKey ((O.dict h a).map (fun kv => (kv.1, valTok kv.2)))
     cmpToks s!"snapshot {handle}" (kvs.flatMap (fun kv => [MTok.lit ("k" ++ strToHex kv.1), kv.2])) body
+  | "!panic" :: _ => fail s!"snapshot {handle}: the implementation panicked while the container was being observed (Slice / Dict): {content}"
   | _ => fail s!"protocol: bad snapshot {content}"
 
 end Anytype.Driver
